@@ -16,6 +16,21 @@ def check(run):
         crules.hash_rules(run, None, None, None, None, r2, ast) if False else _allids(run, r2, ast)
         crules.deferred_rules(run, "C10-oneshot", r3, r4, ast)
     run.assumptions += ["equality of dispatch results across flavours is a run-time comparison: not decided; these are the places where a flavour-specific id could be lost"]
+    # every consumer of an object's id uses the DYNAMIC id under every flavour: virtual_ptr's constructor reads the cell
+    # Policy::dynamic_vptr(obj) reads, for custom-id, projected and unhashed policies alike (rule shared with C09-lookup)
+    from . import c09
+    from .. import callpath
+    run.rule("C10-lookup", "under every id flavour (std, custom ids, projected ids, with / without hash) virtual_ptr's dynamic route reads the table at the object's (hashed) dynamic id", floor=12)
+    for x in ("C10-y0", "C10-y2", "C10-y3", "C10-y4"):
+        run.rule(x, "(decided by C09)", floor=0)
+    fl = ["p_def", "p_proj", "p_nohash", "p_map", "release"]
+    for u in callpath.build_units(run, fl, ["r", "V"], ndebug=True, tag="c10"):
+        c09.ir_rules(run, u, "C10-y0", "C10-lookup", "C10-y2", "C10-y3", "C10-y4")
+    run.violations = [v for v in run.violations if not v["rule"].startswith("C10-y")]
+    for x in ("C10-y0", "C10-y2", "C10-y3", "C10-y4"):
+        del run.rules[x]
+    from .. import crules as _cr
+    _cr.facet_rules(run, "C10-facets")
     return run.finish(level="other", explanation="AST / CFG rules: who-must-wrap rule on class_map keys, control-dependence whitelist of the id-list append, loop-nest rule "
                       "for the three publishers, typestate rule (flag test / flag set placement) for deferred id resolution.")
 
